@@ -145,7 +145,7 @@ func (o *Out) L2(kind, caseLine, detail string) {
 	o.stats["l2_fail"]++
 }
 
-func (o *Out) Count(key string) { o.stats[key]++ }
+func (o *Out) Count(key string)      { o.stats[key]++ }
 func (o *Out) Add(key string, n int) { o.stats[key] += n }
 
 func (o *Out) Close() {
